@@ -5,9 +5,11 @@ correspondence (Lean model vs the real code):
     (every Unicode scalar value at least once; generated mappings)
   * `helpers._unjsonify` on generated JSON (random whitespace, every escape style, surrogate pairs, repeated
     keys, bare-string values), on mutated JSON and on a hand-written list, vs Json.decodeAttrs / decodeList
-  * `Attributes` operation sequences (set / update / update-from-Attributes / constructor / del) under both
-    settings of `constants.always_return_list`: `_d` and `items()` vs Attributes.set/update/view
-  * `feature[key] = v` / `feature.attributes[key] = v` on parsed features: attributes, printed line, `feature[key]`
+  * `Attributes` operation sequences (set / update / update-from-Attributes / constructor / del / setdefault - sent
+    to the model as `set` when the key is missing and as nothing otherwise) under both settings of
+    `constants.always_return_list`: `_d` and `items()` vs Attributes.set/update/view
+  * `feature[key] = v` / `feature.attributes[key] = v` / `feature.attributes.setdefault(key, v)` on parsed features
+    (keys include the GFF column names: `score`, `source`, `end`, ...): attributes, printed line, `feature[key]`
   * `helpers.merge_attributes` on plain dicts and on Attributes objects, both settings, numeric_sort on/off
   * the decimal grammar of numeric_sort (and, on the Python side, that `float` orders that grammar like the
     exact values do)
@@ -372,14 +374,41 @@ def apply_ops_impl(ops, al):
                     a = Attributes(copy.deepcopy(op[1]))
                 elif op[0] == "del":
                     del a[op[1]]
+                elif op[0] == "sdf":
+                    a.setdefault(op[1], copy.deepcopy(op[2]))
             return "ok %s %s" % (pd(a._d), pd(a.items())), a
         except Exception as ex:
             return "err " + pyside.err_name(ex), None
 
 
+def lower_setdefault(ops):
+    """the model has no setdefault op.  Attributes inherits setdefault from MutableMapping (`try: return self[key]` /
+    `except KeyError: self[key] = default`), i.e. it is a `set` when the key is missing at that point and nothing
+    otherwise: the same sequence with every ("sdf", k, v) rewritten that way (a `del` of a missing key ends it)"""
+    keys, out = set(), []
+    for op in ops:
+        if op[0] == "sdf":
+            if op[1] in keys:
+                continue
+            op = ("set", op[1], op[2])
+        if op[0] == "set":
+            keys.add(op[1])
+        elif op[0] in ("upd", "upa"):
+            keys.update(op[1].keys())
+        elif op[0] == "new":
+            keys = set(op[1].keys())
+        elif op[0] == "del":
+            if op[1] not in keys:
+                out.append(op)
+                break
+            keys.discard(op[1])
+        out.append(op)
+    return out
+
+
 def ops_cmd(ops, al):
     ws_ = []
-    for op in ops:
+    for op in lower_setdefault(ops):
         if op[0] == "set":
             ws_.append("set/%s/%s" % (enc(op[1]), pv(op[2])))
         elif op[0] in ("upd", "upa", "new"):
@@ -404,6 +433,10 @@ def ref_apply(ops):
             if op[1] not in ref:
                 return None
             del ref[op[1]]
+        elif op[0] == "sdf":
+            # "however they were set": a default stored for a missing key is wrapped like any other value that is set
+            if op[1] not in ref:
+                ref[op[1]] = [op[2]] if isinstance(op[2], str) else op[2]
     return ref
 
 
@@ -415,7 +448,7 @@ def rand_line(r):
     a = r.randrange(1, 100000)
     cols = [r.choice(["chr1", "2L", "X"]), r.choice(["src", ".", "FlyBase"]), r.choice(["gene", "mRNA", "exon"]),
             str(a), str(a + r.randrange(0, 5000)), r.choice([".", "0.5"]), r.choice("+-."), r.choice(".012")]
-    keys = r.sample(LINE_KEYS, r.choice([0, 1, 2, 3, 4]))
+    keys = r.sample(LINE_KEYS + (COLUMN_KEYS[:8] if r.random() < 0.3 else []), r.choice([0, 1, 2, 3, 4]))
     parts = []
     for k in keys:
         vals = []
@@ -454,6 +487,141 @@ class Failures:
 
 
 # ----------------------------------------------------------------------------------------------
+
+def check_ops(F, res, ops, al):
+    """oracle for one operation sequence on a fresh Attributes.  returns (the reply for the correspondence, whether
+    the case is non-trivial: a scalar or a one-item list in the store)"""
+    from gffutils import helpers
+    ref = ref_apply(ops)
+    out, a = apply_ops_impl(ops, al)
+    res.evaluations += 1
+    payload = {"kind": "ops", "ops": repr(ops), "always_return_list": al}
+    if ref is None:
+        if a is not None:
+            F.add("deleting a missing key did not raise", payload)
+        return out, False
+    if a is None:
+        F.add("Attributes operation raised " + out, payload)
+        return out, False
+    with setting(True):
+        stored = [(k, a[k]) for k in a.keys()]
+    with setting(False):
+        viewed = [(k, a[k]) for k in a.keys()]
+        js_f = helpers._jsonify(a)
+    with setting(True):
+        stored2 = [(k, a[k]) for k in a.keys()]
+        js_t = helpers._jsonify(a)
+    if [k for k, _ in stored] != list(ref.keys()) or any(
+            not seq_of_str(v) or type(v) is not type(ref[k]) or v != ref[k] for k, v in stored):
+        F.add("stored attribute values are not the sequences that were set (scalar -> one-item list)",
+              dict(payload, stored=repr(stored), expected=repr(ref)))
+    for (k, v), (_, w) in zip(stored, viewed):
+        want = v[0] if (type(v) is list and len(v) == 1) else v
+        if w != want or type(w) is not type(want):
+            F.add("always_return_list=False changes more (or less) than the view of one-item lists",
+                  dict(payload, key=k, stored=repr(v), viewed=repr(w)))
+    if stored2 != stored or js_f != js_t:
+        F.add("reading under always_return_list=False changed the stored values", payload)
+    # the other read accessors are views of the same store: values(), iteration, len(), str()
+    for al2, items in ((True, stored), (False, viewed)):
+        with setting(al2):
+            vals, it, n, txt = a.values(), list(iter(a)), len(a), str(a)
+        if vals != [v for _, v in items] or it != [k for k, _ in items] or n != len(items) \
+                or txt != "\n".join("%s: %s" % (k, v) for k, v in items):
+            F.add("values() / iteration / len() / str() disagree with items() under always_return_list=%s" % al2,
+                  dict(payload, items=repr(items), values=repr(vals), keys=repr(it), length=n))
+    return out, any(isinstance(v, str) or (isinstance(v, list) and len(v) == 1) for k, v in stored)
+
+
+COLUMN_KEYS = ["seqid", "source", "featuretype", "start", "end", "score", "strand", "frame", "attributes", "extra"]
+HOWS = ["feature", "mapping", "setdefault"]
+
+
+def lower_feature_sets(line, sets):
+    """the (key, value) assignments the sets amount to on the feature parsed from `line`: setdefault is an assignment
+    when the key is missing at that point and nothing otherwise"""
+    from gffutils.feature import feature_from_line
+    keys = set(feature_from_line(line).attributes.keys())
+    out = []
+    for how, k, v in sets:
+        if how == "setdefault" and k in keys:
+            continue
+        keys.add(k)
+        out.append((k, v))
+    return out
+
+
+def check_feature_sets(F, res, line, sets, al, source="parsed"):
+    """oracle: on a feature obtained by parsing `line` (source 'parsed') or read back from a database made of that line
+    ('db'), values set through the Feature (`f[k] = v`), through its mapping (`f.attributes[k] = v`) or with the mapping's
+    setdefault are stored in the mapping as sequences of strings (a scalar wrapped), under every key - also keys spelled
+    like a GFF column - and `f[k]` / `f.attributes[k]` show them (one-item lists unwrapped under always_return_list=False).
+    returns (attributes, printed line, [(key, f[key])] under the setting - the first and the last in protocol form) or None"""
+    import gffutils
+    from gffutils.feature import feature_from_line
+    payload = {"kind": "feature-set", "line": line, "sets": repr(sets), "always_return_list": al, "source": source}
+    db = None
+    if source == "db":
+        try:                    # making the database is not what is judged here
+            with setting(True):
+                db = gffutils.create_db(line + "\n", ":memory:", from_string=True, id_spec=lambda feat: "feat1")
+        except Exception:
+            res.count("db_feature_skipped_create_db_raised")
+            return None
+    res.evaluations += 1
+    try:
+        if source == "db":
+            with setting(al):
+                f = next(iter(db.all_features()))
+        else:
+            f = feature_from_line(line)
+        ref = {k: list(v) for k, v in f.attributes._d.items()}
+        for how, k, v in sets:
+            with setting(al):
+                if how == "feature":
+                    f[k] = copy.deepcopy(v)
+                elif how == "mapping":
+                    f.attributes[k] = copy.deepcopy(v)
+                else:
+                    f.attributes.setdefault(k, copy.deepcopy(v))
+            if how != "setdefault" or k not in ref:
+                ref[k] = [v] if isinstance(v, str) else v
+        with setting(True):
+            stored = [(k, f[k]) for k in f.attributes.keys()]
+            stored_m = [(k, f.attributes[k]) for k in f.attributes.keys()]
+        with setting(al):
+            viewed = [(k, f[k]) for k in f.attributes.keys()]
+            viewed_m = [(k, f.attributes[k]) for k in f.attributes.keys()]
+    except Exception as ex:
+        F.add("setting / reading attributes of a %s feature raised %r" % (source, ex), payload)
+        return None
+    for name, st in (("feature[key]", stored), ("feature.attributes[key]", stored_m)):
+        if [k for k, _ in st] != list(ref.keys()) or any(not seq_of_str(v) or list(v) != list(ref[k]) for k, v in st):
+            F.add("values set through the Feature / its attributes mapping are not stored as sequences of strings "
+                  "(read through %s)" % name, dict(payload, stored=repr(st), expected=repr(ref)))
+            break
+    for name, st, vw in (("feature[key]", stored, viewed), ("feature.attributes[key]", stored_m, viewed_m)):
+        for (k, v), (_, w) in zip(st, vw):
+            want = v[0] if (not al and type(v) is list and len(v) == 1) else v
+            if w != want:
+                F.add("%s under always_return_list=%s is not the expected view" % (name, al),
+                      dict(payload, key=k, stored=repr(v), viewed=repr(w)))
+                break
+    try:
+        with setting(True):
+            printed = str(f)
+    except Exception as ex:
+        printed = "!" + pyside.err_name(ex)
+    try:
+        attrs_enc = pyside.enc_attrs(f.attributes)
+    except Exception as ex:
+        attrs_enc = "!" + pyside.err_name(ex)
+    try:
+        viewed_enc = pd(viewed)
+    except Exception as ex:
+        viewed_enc = "!" + pyside.err_name(ex)
+    return attrs_enc, printed, viewed_enc
+
 
 def check_merge_case(F, res, case, out, got, unchanged):
     """oracle for one merge_attributes call"""
@@ -498,9 +666,10 @@ def run(ctx):
     F = Failures(res)
     r = ctx.rng("c17")
     T = ctx.thorough
-    res.rule = ("(1) Attributes/Feature set-get: random op sequences (scalar/list/tuple values, any Unicode) on fresh "
-                "containers, on parsed features and on features read from a database, both settings of "
-                "always_return_list; (2) JSON: every Unicode scalar value through _jsonify, generated mappings through "
+    res.rule = ("(1) Attributes/Feature set-get: random op sequences (set / update / constructor / del / setdefault; "
+                "scalar/list/tuple values, any Unicode) on fresh containers, on parsed features and on features read from "
+                "a database (through feature[key], feature.attributes[key] and attributes.setdefault; keys present in "
+                "the line, new ones and keys spelled like a GFF column), both settings of always_return_list; (2) JSON: every Unicode scalar value through _jsonify, generated mappings through "
                 "_jsonify/_unjsonify/astuple/Feature(...)/a database, generated + mutated + hand-written JSON through "
                 "_unjsonify; (3) merge_attributes on pairs with shared keys and colliding values, dict/Attributes "
                 "arguments, both settings, numeric_sort on/off; (4) pairs of Features with equal and unequal printed "
@@ -526,96 +695,71 @@ def run(ctx):
                 ops.append(("upd", rand_pydict(r, VALPOOL)))
             elif x < 0.8:
                 ops.append(("upa", rand_pydict(r, VALPOOL)))
-            elif x < 0.9:
+            elif x < 0.87:
                 ops.append(("new", rand_pydict(r, VALPOOL)))
-            else:
+            elif x < 0.93:
                 ops.append(("del", rand_key(r)))
-        ref = ref_apply(ops)
+            else:
+                # setdefault: missing and existing keys, scalar / list / tuple defaults
+                ops.append(("sdf", rand_key(r), rand_pyval(r, VALPOOL)))
         for al in (True, False):
-            out, a = apply_ops_impl(ops, al)
+            out, nt = check_ops(F, res, ops, al)
             corr(ops_cmd(ops, al), out, "Attributes ops (always_return_list=%s)" % al, repr(ops))
-            res.evaluations += 1
-            payload = {"kind": "ops", "ops": repr(ops), "always_return_list": al}
-            if ref is None:
-                if a is not None:
-                    F.add("deleting a missing key did not raise", payload)
-                continue
-            if a is None:
-                F.add("Attributes operation raised " + out, payload)
-                continue
-            with setting(True):
-                stored = [(k, a[k]) for k in a.keys()]
-            with setting(False):
-                viewed = [(k, a[k]) for k in a.keys()]
-                js_f = helpers._jsonify(a)
-            with setting(True):
-                stored2 = [(k, a[k]) for k in a.keys()]
-                js_t = helpers._jsonify(a)
-            if [k for k, _ in stored] != list(ref.keys()) or any(
-                    not seq_of_str(v) or type(v) is not type(ref[k]) or v != ref[k] for k, v in stored):
-                F.add("stored attribute values are not the sequences that were set (scalar -> one-item list)",
-                      dict(payload, stored=repr(stored), expected=repr(ref)))
-            for (k, v), (_, w) in zip(stored, viewed):
-                want = v[0] if (type(v) is list and len(v) == 1) else v
-                if w != want or type(w) is not type(want):
-                    F.add("always_return_list=False changes more (or less) than the view of one-item lists",
-                          dict(payload, key=k, stored=repr(v), viewed=repr(w)))
-            if stored2 != stored or js_f != js_t:
-                F.add("reading under always_return_list=False changed the stored values", payload)
-            # the other read accessors are views of the same store: values(), iteration, len(), str()
-            for al2, items in ((True, stored), (False, viewed)):
-                with setting(al2):
-                    vals, it, n, txt = a.values(), list(iter(a)), len(a), str(a)
-                if vals != [v for _, v in items] or it != [k for k, _ in items] or n != len(items) \
-                        or txt != "\n".join("%s: %s" % (k, v) for k, v in items):
-                    F.add("values() / iteration / len() / str() disagree with items() under always_return_list=%s" % al2,
-                          dict(payload, items=repr(items), values=repr(vals), keys=repr(it), length=n))
-            if any(isinstance(v, str) or (isinstance(v, list) and len(v) == 1) for k, v in stored):
+            if nt:
                 res.nontriv(("ops", repr(ops), al))
+        if any(op[0] == "sdf" for op in ops):
+            res.count("attributes_op_sequences_with_setdefault")
         res.count("attributes_op_sequences")
         if i < 2:
-            res.sample({"ops": repr(ops), "store": repr(ref)})
+            res.sample({"ops": repr(ops), "store": repr(ref_apply(ops))})
 
-    # features obtained by parsing: set through the Feature and through the mapping ---------------------------
+    # features obtained by parsing or from a database: set through the Feature, through the mapping and with the
+    # mapping's setdefault; attribute keys include the names of the GFF columns (FlyBase has `score=11` in column 9)
     n_f = 600 if not T else 6000
     for i in range(n_f):
         line = rand_line(r)
-        sets = [(r.choice(LINE_KEYS + ["new1", "é"]), rand_pyval(r, VALPOOL)) for _ in range(r.choice([0, 1, 2, 3]))]
-        for al in (True, False):
-            f = feature_from_line(line)
-            ref = {k: list(v) for k, v in f.attributes._d.items()}
-            for j, (k, v) in enumerate(sets):
-                with setting(al):
-                    if j % 2 == 0:
-                        f[k] = copy.deepcopy(v)
-                    else:
-                        f.attributes[k] = copy.deepcopy(v)
-                ref[k] = [v] if isinstance(v, str) else v
-            with setting(True):
-                stored = [(k, f[k]) for k in f.attributes.keys()]
-                printed = str(f)
-            with setting(al):
-                viewed = [(k, f[k]) for k in f.attributes.keys()]
-            res.evaluations += 1
-            payload = {"kind": "feature-set", "line": line, "sets": repr(sets), "always_return_list": al}
-            if [k for k, _ in stored] != list(ref.keys()) or any(
-                    not seq_of_str(v) or list(v) != list(ref[k]) for k, v in stored):
-                F.add("values set through the Feature / its attributes mapping are not stored as sequences of strings",
-                      dict(payload, stored=repr(stored), expected=repr(ref)))
-            for (k, v), (_, w) in zip(stored, viewed):
-                want = v[0] if (not al and type(v) is list and len(v) == 1) else v
-                if w != want:
-                    F.add("feature[key] under always_return_list=%s is not the expected view" % al,
-                          dict(payload, key=k, stored=repr(v), viewed=repr(w)))
-            # the Feature model keeps the strings of a value, not whether it is a list or a tuple: Feature-level
-            # correspondence on scalars and lists (tuples are covered at the Attributes level above)
-            if not any(isinstance(v, tuple) for _, v in sets):
-                corr("fops %d %s %s" % (1 if al else 0, enc(line), " ".join(enc(k) + "/" + pv(v) for k, v in sets)),
-                     "ok %s %s %s" % (pyside.enc_attrs(f.attributes), enc(printed), pd(viewed)),
-                     "Feature.__setitem__/__getitem__", repr((line, sets, al)))
-            if sets:
-                res.nontriv(("fset", line, repr(sets), al))
-        res.count("parsed_features_with_sets")
+        present = [p_.split("=")[0] for p_ in line.split("\t")[8].split(";") if p_]
+        sets = []
+        for _ in range(r.choice([0, 1, 2, 3, 4])):
+            x = r.random()
+            k = r.choice(COLUMN_KEYS) if x < 0.3 else r.choice(present) if (x < 0.45 and present) else \
+                r.choice(LINE_KEYS + ["new1", "é"])
+            sets.append((r.choice(HOWS), k, rand_pyval(r, VALPOOL)))
+        for source in (("parsed", "db") if i % 4 == 0 else ("parsed",)):
+            for al in (True, False):
+                got = check_feature_sets(F, res, line, sets, al, source)
+                res.count("%s_features_with_sets" % source, 0 if al else 1)
+                if got is None or source != "parsed":
+                    continue
+                attrs_enc, printed, viewed = got
+                # the Feature model keeps the strings of a value, not whether it is a list or a tuple: Feature-level
+                # correspondence on scalars and lists (tuples are covered at the Attributes level above)
+                if not any(isinstance(v, tuple) for _, _, v in sets):
+                    corr("fops %d %s %s" % (1 if al else 0, enc(line), " ".join(enc(k) + "/" + pv(v) for k, v in lower_feature_sets(line, sets))),
+                         "ok %s %s %s" % (attrs_enc, enc(printed), viewed),
+                         "Feature.__setitem__/__getitem__/attributes.setdefault", repr((line, sets, al)))
+                if sets:
+                    res.nontriv(("fset", line, repr(sets), al))
+        for how, k, _ in sets:
+            res.count("feature_set_via_" + how)
+            if k in COLUMN_KEYS:
+                res.count("feature_set_key_named_like_a_column")
+    # directed: the eight column names (and `attributes`) as attribute keys, read from the line and set every way
+    for k in COLUMN_KEYS:
+        for line in ("chr2L\tFlyBase\tmRNA\t7529\t9484\t.\t+\t.\tID=FBtr0300689;score_text=Strongly Supported;%s=11" % k,
+                     "chr2L\tFlyBase\tmRNA\t7529\t9484\t3\t+\t.\tID=x"):
+            for how in HOWS:
+                for v in ("12", ["3prime", "partial"]):
+                    sets = [(how, k, v), ("feature", "Note", "curated")]
+                    for source in ("parsed", "db"):
+                        for al in (True, False):
+                            got = check_feature_sets(F, res, line, sets, al, source)
+                            if got is not None and source == "parsed":
+                                corr("fops %d %s %s" % (1 if al else 0, enc(line), " ".join(
+                                    enc(k2) + "/" + pv(v2) for k2, v2 in lower_feature_sets(line, sets))),
+                                     "ok %s %s %s" % (got[0], enc(got[1]), got[2]),
+                                     "Feature.__setitem__/__getitem__/attributes.setdefault (column-named key)",
+                                     repr((line, sets, al)))
 
     # the switch must not change what parsing stores, nor the printed line ------------------------------------
     n_p = 300 if not T else 3000
@@ -918,9 +1062,13 @@ def run(ctx):
             g[k] = r.choice([g.attributes._d[k], list(g.attributes._d[k]) + ["zz"], "v"])
         elif y < 0.5:
             g.dialect = dict(g.dialect, **{"trailing semicolon": True})
-        sf, sg = str(f), str(g)
-        eq, ne = (f == g), (f != g)
         res.evaluations += 1
+        try:
+            sf, sg = str(f), str(g)
+            eq, ne = (f == g), (f != g)
+        except Exception as ex:
+            F.add("printing / comparing two Features raised %r" % ex, {"kind": "eq", "line1": l1, "line2": l2, "edit": y})
+            continue
         payload = {"kind": "eq", "line1": l1, "line2": l2, "str1": sf, "str2": sg}
         if eq is not (sf == sg) or ne is not (sf != sg) or not (f == f):
             F.add("Feature == / != disagrees with equality of the printed lines", dict(payload, eq=eq, ne=ne))
@@ -1033,6 +1181,25 @@ def replay(ctx, payload):
             F.add("parsing under always_return_list=False stores other values", i)
         if pt != pf:
             F.add("str(feature) depends on always_return_list", i)
+    elif kind == "ops":
+        import ast
+        ops, al = ast.literal_eval(i["ops"]), i["always_return_list"]
+        out, a = apply_ops_impl(ops, al)
+        print("  operations on a fresh Attributes under always_return_list=%r: %r\n  store now: %r\n  expected store: %r"
+              % (al, ops, None if a is None else a._d, ref_apply(ops)))
+        check_ops(F, res, ops, al)
+    elif kind == "feature-set":
+        import ast
+        sets, al, source = ast.literal_eval(i["sets"]), i["always_return_list"], i.get("source", "parsed")
+        if sets and len(sets[0]) == 2:           # the older form: (key, value), alternately through the Feature / the mapping
+            sets = [("feature" if j % 2 == 0 else "mapping", k, v) for j, (k, v) in enumerate(sets)]
+        print("  %s feature of line %r, always_return_list=%r\n  sets (how, key, value): %r" % (source, i["line"], al, sets))
+        got = check_feature_sets(F, res, i["line"], sets, al, source)
+        if got is not None:
+            print("  attributes now (key/values as code points): %s\n  printed: %r" % (got[0], got[1]))
     else:
         print("  input:", i)
+    for w, p_ in res.oracle_failures[:3]:
+        print("  now:", w, {k: v for k, v in p_.items() if k in ("stored", "expected", "viewed", "key")})
+    print("replay: verdict: the recorded oracle %s on this tree (%s)" % ("fails" if res.oracle_failures else "holds", common.repo_dir()))
     return res
